@@ -123,6 +123,34 @@ TagWrap(T, tag, body, way) ==
     [] T.lay = "adj" -> IF way = 1 THEN MkDict(<< <<MkStr(T.tk), tag>>, <<MkStr(T.ck), body>> >>)
                         ELSE MkDict(<< <<MkStr(T.ck), body>>, <<MkStr(T.tk), tag>> >>)
 
+(* the shipped helper types of pane.types *)
+TVol(e) == [k |-> "vol", e |-> e]
+RangeCls(num) ==
+  [k |-> "cls", name |-> "Range",
+   fs |-> << Fld("s_start", num, NoDef), Fld("s_end", num, NoDef),
+             Fld("s_n", TOpt(TAnn(TS("int"), <<[k |-> "nonneg"]>>)), DefVal(MkNone)),
+             FldX("s_step", TOpt(num), DefVal(MkNone), "T", <<"s_step">>, "s_step", "F", "T") >>,
+   inf |-> <<"struct", "tuple">>, outf |-> "struct", extra |-> "F", hook |-> [k |-> "rangehook"]]
+RangeNums(T) == IF T.fs[1].t.k = "int" THEN {MkInt(0), MkInt(10), MkInt(3)}
+                ELSE {MkFloat(<<0, 1>>), MkFloat(<<1, 1>>), F15, MkInt(2)}
+RangeNs    == {MkInt(0), MkInt(1), MkInt(2), MkInt(3), MkInt(11), MkInt(-1), F20, MkNone}
+RangeSteps == {MkInt(0), MkInt(1), MkInt(2), MkInt(3), MkInt(-1), MkInt(-3), MkFloat(<<1, 2>>), MkFloat(<<1, 4>>), MkNone}
+RangeMap(s, e, n, st, hasn, hasst) ==
+  MkDict(<< <<MkStr("s_start"), s>>, <<MkStr("s_end"), e>> >>
+         \o (IF hasn THEN << <<MkStr("s_n"), n>> >> ELSE <<>>) \o (IF hasst THEN << <<MkStr("s_step"), st>> >> ELSE <<>>))
+RangeMembers(T) ==
+  LET N == RangeNums(T) a == Pick1(N) b == Pick2(N) IN
+  { RangeMap(a, b, MkInt(2), MkNone, TRUE, FALSE), RangeMap(b, a, MkNone, MkInt(1), FALSE, TRUE),
+    MkList(<<a, b, MkInt(2)>>), MkTuple(<<a, a, MkInt(0)>>) }
+RangeGen(T) ==
+  LET N == RangeNums(T) IN
+  { RangeMap(s, e, n, MkNone, TRUE, FALSE) : s, e \in N, n \in RangeNs }
+  \cup { RangeMap(s, e, MkNone, st, FALSE, TRUE) : s, e \in N, st \in RangeSteps }
+  \cup { RangeMap(s, e, n, st, TRUE, TRUE) : s, e \in N, n \in {MkInt(2), MkInt(11), MkNone}, st \in {MkInt(1), MkInt(0), MkNone} }
+  \cup { MkList(<<s, e, n>>) : s, e \in N, n \in RangeNs } \cup { MkTuple(<<s, e>>) : s, e \in N }
+  \cup { MkList(<<Pick1(N), Pick2(N), MkInt(2), MkInt(1)>>), MkList(<<Pick1(N)>>), MkDict(<< <<MkStr("s_start"), Pick1(N)>> >>),
+          RangeMap(MkStr("s_a"), Pick1(N), MkInt(2), MkNone, TRUE, FALSE), RangeMap(Pick1(N), FInf, MkInt(2), MkNone, TRUE, FALSE) }
+
 RECURSIVE Members(_), Gen(_)
 Members(T) ==
   CASE T.k \in ScalarKinds -> ScalarMembers(T.k)
@@ -155,6 +183,8 @@ Members(T) ==
     [] T.k = "ann"   -> Members(T.t)
     [] T.k = "ndarray" -> NdVals
     [] T.k = "sub"   -> Members(T.base)
+    [] T.k = "vol"   -> Members(T.e) \cup Members(TSeq("list", T.e))
+    [] T.k = "cls" /\ T.hook.k = "rangehook" -> RangeMembers(T)
     [] T.k = "tagged" ->
          UNION { UNION { { TagWrap(T, T.tags[i], b, 1), TagWrap(T, T.tags[i], b, 2) } :
                          b \in {m \in Members(T.vars[i]) : m.k = "map"} } : i \in DOMAIN T.vars } \ {MkNone}
@@ -204,6 +234,8 @@ Gen(T) ==
     [] T.k = "ndarray" -> {}
     [] T.k = "ann"   -> Gen(T.t) \cup CondVals
     [] T.k = "sub"   -> Gen(T.base)
+    [] T.k = "vol"   -> Gen(T.e) \cup Gen(TSeq("list", T.e))
+    [] T.k = "cls" /\ T.hook.k = "rangehook" -> RangeGen(T)
     [] T.k = "tagged" ->
          LET okbody == MkDict(<< <<MkStr("s_y"), MkInt(1)>> >>)
              tagvals == Range(T.tags) \cup ArbAtoms \cup {MkStr("s_v3"), MkList(<<MkInt(1)>>), MkDict(<<>>), MkTuple(<<MkInt(1)>>)} IN
@@ -423,6 +455,10 @@ ExcLeaves ==
          ClsHook([k |-> "uraise"]), ClsHook([k |-> "neg"]), ClsHook([k |-> "utrue"]),
          TEnum("Mixed", <<MkInt(1), MkStr("s_a")>>), EnumS, SubI, SubS }
 
+(* shipped helper types (pane.types): Range, ValueOrList, alone and as members of each other *)
+ShippedLeaves == { RangeCls(TInt), RangeCls(TFloat), TVol(TInt), TVol(TStr), TVol(TS("any")), TVol(TSeq("list", TInt)),
+                   TVol(RangeCls(TInt)), TVol(TOpt(TInt)), TVol(TS("fraction")), TVol(KAlias) }
+
 LeafKinds ==
   CASE Focus = "core"   -> {"none", "bool", "int", "float", "complex", "str", "bytes", "any"}
     [] Focus = "scalar" -> ScalarKinds
@@ -441,6 +477,7 @@ Leaves ==
     [] Focus = "names"   -> NameLeaves
     [] Focus = "io"      -> IOLeaves
     [] Focus = "namesall" -> NameLeavesAll
+    [] Focus = "shipped" -> ShippedLeaves
 
 Wrap(T) ==
   { TSeq(k, T) : k \in SeqKinds }
@@ -459,7 +496,7 @@ WrapFew(T) ==
 WrapOf(T, d) ==
   CASE Focus = "matrix" -> Contexts(T)
     [] Focus \in {"unionq", "uniont"} -> UnionNest(T)
-    [] Focus \in {"condq", "condt", "exc", "tagged", "cls", "names", "namesall", "io"} -> WrapFew(T)
+    [] Focus \in {"condq", "condt", "exc", "tagged", "cls", "names", "namesall", "io", "shipped"} -> WrapFew(T)
     [] OTHER -> IF d = 0 \/ OuterWrap = "all" THEN Wrap(T) ELSE WrapFew(T)
 
 (* C14: constructions of a class: which init fields are supplied, how many of them positionally, *)
